@@ -480,6 +480,7 @@ pub fn run(tier: &str) -> i32 {
                 ShrinkOpts {
                     drop_tasks: false,
                     drop_players: true,
+                    narrow_scopes: false,
                     max_candidates: 150,
                 },
             );
